@@ -3,6 +3,7 @@ import Pw.Spec.Errors
 import Pw.Spec.Cursor
 import Pw.Spec.Ext
 import Pw.Model.Conc
+import Pw.Model.Heap
 /-
   Line-protocol driver: reads `case || implementation result` lines, runs the model on the
   case, compares with the implementation's result and evaluates the property oracles on the
@@ -103,10 +104,43 @@ def runCloseModel (c : CaseIn) : String :=
         go r ((Conc.step (.worker idx) s).getD s) (a :: acc)
   ";".intercalate (go acts (Conc.init k cmds.length) [] ++ ["serve=nil", "viol=-"])
 
+/-- C18: the heap model on a sequence of reads / skips / accessor calls -/
+def runHeapModel (c : CaseIn) : String :=
+  let L := effLimit c.cfg.L
+  let ops := ((get c.kv "ops").splitOn ",").filter (· ≠ "")
+  -- arenas are numbered in order of first appearance at an operation boundary (the arenas of
+  -- intermediate skip chunks are never observed by the harness)
+  let layout (seen : List Nat) (s : Heap.St) : String × List Nat := match s.cur with
+    | none => ("nil", seen)
+    | some w =>
+      if w.cap = 0 then ("-:0:0", seen) else
+      let seen' := if seen.contains w.arena then seen else seen ++ [w.arena]
+      let idx := (seen'.findIdx? (· = w.arena)).getD 0
+      (toString idx ++ ":" ++ toString w.len ++ ":" ++ toString w.cap, seen')
+  let rec slurp (fuel : Nat) (remaining : Nat) (s : Heap.St) : Heap.St :=
+    match fuel with
+    | 0 => s
+    | f + 1 => if remaining = 0 then s else
+        let reading := if remaining > L then L else remaining
+        slurp f (remaining - reading) (Heap.reset reading s)
+  let rec go (ops : List String) (s : Heap.St) (seen : List Nat) (acc : List String) : List String :=
+    match ops with
+    | [] => acc.reverse
+    | o :: r =>
+      let n := ((o.drop 1).toString.toNat?).getD 0
+      let s' := if o.startsWith "r" then Heap.reset n s
+        else if o.startsWith "s" then slurp (n + 1) n s
+        else Heap.take n 0 s
+      let (txt, seen') := layout seen s'
+      go r s' seen' (txt :: acc)
+  ";".intercalate (go ops {} [] [] ++ ["views=ok"])
+
 /-- model side of the direct-call campaigns -/
 def runDirect (c : CaseIn) (kind : String) : ModelOut :=
   if kind = "params" then
     { out := "", ev := "n=" ++ toString (paramCount c.inp) ++ ";z=1", ending := "c", unsup := false, stuffed := false }
+  else if kind = "heap" then
+    { out := "", ev := runHeapModel c, ending := "c", unsup := false, stuffed := false }
   else if kind = "close" then
     { out := "", ev := runCloseModel c, ending := "c", unsup := false, stuffed := false }
   else if kind = "accessor" then
@@ -580,6 +614,10 @@ def oracle (c : CaseIn) (chunks : List Bytes) (rkv : KV) : Option String :=
   else if c.camp = "auth" then oracleAuth c chunks rkv
   else if c.camp = "multi" then oracleMulti c rkv
   else if c.camp = "close" then oracleClose rkv
+  else if c.camp = "heap" then
+    (if (get rkv "ev").endsWith "views=ok" then none else some "C18:view-returned-by-accessor-overwritten")
+  else if c.camp = "retain" then
+    (if get rkv "retain" = "ok" then none else some ("C18:retained-data-" ++ get rkv "retain"))
   else if c.camp = "startup" then (oracleStartup c chunks rkv).orElse fun _ => oracleExpect c chunks rkv
   else if c.camp = "lifecycle" then (oracleLifecycle c chunks rkv).orElse fun _ => oracleExpect c chunks rkv
   else oracleExpect c chunks rkv
